@@ -1,3 +1,3 @@
 From Coq Require Extraction ExtrOcamlBasic.
 From V Require Import Model.C01.
-Extraction "c01model.ml" emit_order var_names lower_go run.
+Extraction "c01model.ml" emit_order var_names lower_go run switch_exec.
